@@ -341,7 +341,11 @@ func cmdCheck(args []string) int {
 			assumptions = append(assumptions, "facet "+ct.AssumeFacets+" clauses assumed (not verified) for "+name)
 		}
 		if ct.Trusted {
-			assumptions = append(assumptions, "trusted contract (assumed, body not verified): "+name)
+			if ct.VerifyBody != "" {
+				assumptions = append(assumptions, "trusted contract (frame and clauses below facet "+ct.VerifyBody+" assumed; body verified at facet "+ct.VerifyBody+"): "+name)
+			} else {
+				assumptions = append(assumptions, "trusted contract (assumed, body not verified): "+name)
+			}
 		}
 	}
 	for _, ax := range S.Axioms {
@@ -354,7 +358,7 @@ func cmdCheck(args []string) int {
 	cov := map[string]interface{}{
 		"obligations":            total,
 		"discharged":             discharged,
-		"checker_cmd":            fmt.Sprintf("/verif/bin/vcgo check -property %s -tier %s   (per obligation: sliced query then full query on z3-new 5.1.0 (8 s), then z3-new, z3 4.8.12 and cvc5 1.0.3 raced with -T:%d; undecided ones retried once with three times the budget)", *prop, *tier, timeout),
+		"checker_cmd":            fmt.Sprintf("/verif/bin/vcgo check -property %s -tier %s   (per obligation: sliced query then full query on z3-new 5.1.0 (4 s), then z3-new, z3 4.8.12 and cvc5 1.0.3 raced with -T:%d; undecided ones retried once with three times the budget)", *prop, *tier, timeout),
 		"trusted_base":           trustedBase,
 		"functions_under_contract": fnames,
 		"functions":              len(fnames),
